@@ -26,6 +26,7 @@ STRESS = [
     ("cont_in_switch", "unsigned char a,b,c; void main() { do { switch (a) { case 1: continue; default: a++; } b--; } while (b); }"),
     ("cont_in_switch_w", "unsigned char a,b,c; void main() { while (b) { switch (a) { case 1: b--; continue; default: a++; } b--; } for (c = 0; c < 3; c++) { switch (a) { case 0: continue; } a--; } }"),
     ("assign_const_array", "const char arr[2] = {1, 2}; unsigned char a; void main() { arr = a; }"),
+    ("constptr_cross", "char c; char *const P = 0xF0; void main() { c = P[32]; P[20] = c; c = P[2]; }"),
     ("inl_ret", "unsigned char a,b,c; inline char r(char x) { while (x) { if (x == b) return 3; x--; } return 0; }\nvoid main() { a = r(c); b = r(a) + 1; }"),
     ("do_cont", "unsigned char a,b,c; void main() { do { a--; if (a == b) continue; c++; } while (a); do { b--; } while (b); }"),
     ("inl3deep", "unsigned char a,b,c; inline char f1(char x) { if (x) return x; return 1; }\ninline char f2(char x) { return f1(x) + 1; }\ninline char f3(char x) { if (x < 9) return f2(x); return f2(b); }\nvoid main() { a = f3(a); c = f3(c); }"),
